@@ -35,6 +35,9 @@ def main(argv=None):
         traceback.print_exc()
         print("MACHINERY-ERROR unexpected exception in the harness")
         return 2
+    finally:
+        if os.environ.get("VERIF_KEEP_WORK") != "1":
+            tlc.cleanup()           # TLC state directories, exported tables, judge shards: gigabytes at the thorough tier
 
 
 if __name__ == "__main__":
